@@ -222,6 +222,8 @@ func Src(e Expr) string {
 		return P(x.X) + " " + art + " " + x.Chk.String() + " ist"
 	case *DefaultOf:
 		return "der Standardwert von " + x.T.DatIndef()
+	case *Arg:
+		return fmt.Sprintf("((die Befehlszeilenargumente) an der Stelle %d) als Zahl", x.I+2)
 	}
 	panic(fmt.Sprintf("Src: unhandled %T %+v", e, e))
 }
@@ -418,6 +420,9 @@ func join(names []string) string {
 func (pr *Program) Source() string {
 	p := &printer{}
 	p.line(0, "Binde \"Duden/Ausgabe\" ein.")
+	if pr.UsesArgs {
+		p.line(0, "Binde Befehlszeilenargumente aus \"Duden/Laufzeit\" ein.")
+	}
 	p.line(0, "")
 	for _, a := range pr.Aliases {
 		base := *a
